@@ -45,7 +45,7 @@ TOL = Fraction(1, 10**9)       # certificate tolerance relative to max C; margin
 FIRST_DEADLINE = float(os.environ.get("C10_FIRST_DEADLINE", 400.0))   # first answer of a worker includes import + JIT
 RUN_DEADLINE = float(os.environ.get("C10_RUN_DEADLINE", 90.0))       # any later run (a solve is milliseconds; max_iter exhaustion < 1 s)
 
-MASS_KINDS = ["real", "ints", "uniform", "neardegen", "neardegen2", "sparse", "one"]
+MASS_KINDS = ["real", "ints", "uniform", "neardegen", "neardegen2", "sparse", "one", "norm32", "almost1"]
 COST_KINDS = ["real", "ints", "grid", "gridfrac", "decimal", "absij", "zero", "const", "discrete", "asym01", "big", "zerorows", "sqabsij"]
 
 
@@ -63,6 +63,12 @@ def gen_mass(rng, n, kind):
         x = np.full(n, 1e-6); x[rng.integers(n)] = 1.0
     elif kind == "neardegen2":                 # random tiny entries, two dominant ones
         x = rng.random(n) * 1e-6; x[rng.integers(n)] = 1.0; x[rng.integers(n)] = 0.5
+    elif kind == "norm32":                     # already L1-normalised by the caller, in float32: total mass within a few ulp of 1
+        x = rng.random(n).astype(np.float32) + np.float32(0.01)
+        x = x / x.sum(dtype=np.float32)
+    elif kind == "almost1":                    # total mass 1 +- (1e-8 .. 1e-5): "nearly a probability vector" is still just a histogram
+        x = rng.random(n) + 0.01
+        x = x / x.sum() * (1.0 + float(rng.choice([-1, 1])) * 10.0 ** -float(rng.uniform(5.0, 8.0)))
     elif kind == "sparse":
         x = rng.random(n) * (rng.random(n) < 0.3)
     else:                                      # a single point mass
